@@ -186,3 +186,33 @@ Proof.
   intros N. rewrite to_linen_get by (unfold merge_updates; now apply fm_union_keys). rewrite merge_updates_get.
   destruct (fm_get p (to_nnx upd)) as [v|]; [|tauto]. split; [intros H; now inversion H|intros ->; reflexivity].
 Qed.
+
+(* register_variable_name: the name now maps to the type, every other name keeps its type, and the type previously held
+   by that name is no longer reachable through it *)
+Lemma type_of_name_set r nm t nm' : type_of_name (reg_set r nm t) nm' = if N.eqb nm nm' then Some t else type_of_name r nm'.
+Proof.
+  induction r as [|[n t0] q IH]; cbn [reg_set type_of_name].
+  - destruct (N.eqb nm nm'); reflexivity.
+  - destruct (N.eqb_spec n nm) as [->|Hn]; cbn [type_of_name].
+    + destruct (N.eqb nm nm'); reflexivity.
+    + destruct (N.eqb_spec n nm') as [->|Hn'].
+      * destruct (N.eqb_spec nm nm'); [congruence|reflexivity].
+      * exact IH.
+Qed.
+Lemma type_of_name_app_new r nm t nm' : type_of_name r nm = None ->
+  type_of_name (r ++ [(nm, t)]) nm' = if N.eqb nm nm' then Some t else type_of_name r nm'.
+Proof.
+  intros H. induction r as [|[n t0] q IH]; cbn [app type_of_name] in *.
+  - destruct (N.eqb nm nm'); reflexivity.
+  - destruct (N.eqb_spec n nm) as [->|Hn]; [discriminate|].
+    destruct (N.eqb_spec n nm') as [->|Hn']; [destruct (N.eqb_spec nm nm'); [congruence|reflexivity]|now apply IH].
+Qed.
+Theorem register_spec r nm t ow r' : reg_register r nm t ow = Some r' ->
+  forall nm', type_of_name r' nm' = if N.eqb nm nm' then Some t else type_of_name r nm'.
+Proof.
+  unfold reg_register. destruct (type_of_name r nm) eqn:E.
+  - destruct ow; [|discriminate]. intros H nm'; inversion H; subst. apply type_of_name_set.
+  - intros H nm'; inversion H; subst. apply type_of_name_app_new. exact E.
+Qed.
+Theorem register_refuses_taken_name r nm t t0 : type_of_name r nm = Some t0 -> reg_register r nm t false = None.
+Proof. intros H. unfold reg_register. now rewrite H. Qed.
